@@ -321,6 +321,7 @@ def run(tier):
                          file=fn.relfile, line=ln, path=ps.describe_path(ps.path_to(cur_in[0], cur_in[1])))
         res.instance("C11.R4", "psDhGenSharedSecret: pstm_exptmod call (%d valuations)" % n, bad is None, finding=fd)
     rule_R5(res, prog)
+    rule_R3(res, prog)
     return res.finish()
 
 
@@ -410,3 +411,40 @@ def rule_R5(res, prog):
                                  fn.relfile, ln, fn.name, pp(strip(node["r"]))), file=fn.relfile, line=ln)
             res.instance("C11.R5", "%s:%s 0xFF >> %s" % (fn.name, ln, pp(strip(node["r"]))[:50]), ok, finding=f_)
     res.floor("C11.R5", 3)
+
+
+def rule_R3(res, prog):
+    """RSASSA-PKCS1-v1_5 verification is comparison based: the recovered value is compared with the expected one over
+    exactly the length that was requested from the public-key operation - not a prefix of it."""
+    from sa import cfgutil as cu
+    from sa.pp import pp
+    res.rule("C11.R3", "RSA PKCS#1 v1.5: the comparison that decides the verdict covers exactly the recovered length")
+    DEC = {"psRsaDecryptPub": (4, 5), "pubRsaDecryptSignedElementExt": (4, 5), "pubRsaDecryptSignedElement": (4, 5)}   # (out, outlen)
+    n = 0
+    for fn in sorted(prog.functions.values(), key=lambda f: f.qname):
+        if not fn.relfile.startswith("crypto/"):
+            continue
+        outs = {}
+        for b, ln, c in fn.calls():
+            if c.get("fn") in DEC and len(c.get("a", [])) > DEC[c["fn"]][1]:
+                oi, li = DEC[c["fn"]]
+                outs.setdefault(pp(strip(c["a"][oi])), set()).add(pp(strip(c["a"][li])))
+        if not outs:
+            continue
+        for b, ln, c in fn.calls():
+            if c.get("fn") in ("memcmpct", "memcmp", "__builtin_memcmp") and len(c.get("a", [])) >= 3:
+                a0, a1, ln_ = pp(strip(c["a"][0])), pp(strip(c["a"][1])), pp(strip(c["a"][2]))
+                buf = a0 if a0 in outs else a1 if a1 in outs else None
+                if buf is None:
+                    continue
+                n += 1
+                ok = ln_ in outs[buf]
+                f_ = None
+                if not ok:
+                    f_ = Finding(PROP, "C11.R3", fn.name, "signature comparison over %s" % ln_[:30],
+                                 "%s:%s %s(): the value recovered into %s (length %s) is compared with %s over %s bytes: the verdict must come "
+                                 "from a constant-time comparison of the whole recovered value" % (
+                                     fn.relfile, ln, fn.name, buf, sorted(outs[buf]), c["fn"], ln_), file=fn.relfile, line=ln)
+                res.instance("C11.R3", "%s:%s %s(%s, %s, %s)" % (fn.name, ln, c["fn"], a0[:20], a1[:20], ln_[:20]), ok, finding=f_)
+    res.floor("C11.R3", 1)
+
